@@ -712,6 +712,17 @@ func init() {
 		}
 		misfits = append(misfits, misfit{src.name, func() object.Object { return v }})
 		opaqueMisfit[src.name] = true
+		if src.name == "function" || src.name == "module" {
+			// the same one and two levels down: in a list, in a map, in a list in a list
+			for _, n := range []struct {
+				name string
+				o    object.Object
+			}{{"[" + src.name + "]", list(v)}, {"{k:" + src.name + "}", object.NewMap(map[string]object.Object{"k": v})}, {"[[1," + src.name + "]]", list(list(object.NewInt(1), v))}} {
+				o := n.o
+				misfits = append(misfits, misfit{n.name, func() object.Object { return o }})
+				opaqueMisfit[n.name] = true
+			}
+		}
 	}
 	for _, px := range []struct {
 		name string
@@ -769,7 +780,7 @@ func (a *acc) routeMisfit(s *spec, m *misfit, which string) {
 	// the same for a number behind a pointer and for numbers in a list or map written to a container of numbers,
 	// and for a value that has no Go counterpart (a function, a module): accepted means it reads back as itself
 	if (numericMisfit[m.name] && m.name != "float(NaN)" && s.t.Kind() == reflect.Pointer && isNumericKind(s.t.Elem().Kind()) && s.t.Elem().Kind() != reflect.Float32) ||
-		(containerMisfit[m.name] && numericElem(s.t) && s.t.Kind() != reflect.Pointer && s.t.Kind() != reflect.Array && s.t.Elem().Kind() != reflect.Float32) || opaqueMisfit[m.name] {
+		(containerMisfit[m.name] && numericElem(s.t) && s.t.Kind() != reflect.Pointer && s.t.Kind() != reflect.Array && s.t.Elem().Kind() != reflect.Float32) || (opaqueMisfit[m.name] && (!strings.ContainsAny(m.name, "[{") || s.t.Kind() == reflect.Interface)) {
 		numeric = true
 	}
 	// q is what has to come back: p itself, except that a float target holds the nearest float of its size
